@@ -3,6 +3,7 @@ package simrt
 import (
 	"fmt"
 	"hash/fnv"
+	"os"
 	"runtime"
 	"runtime/debug"
 	"sort"
@@ -31,6 +32,7 @@ type Config struct {
 	MaxSim    time.Duration
 	Horizon   time.Duration // idle for this long with nothing enabled => deadlock
 	LivelockSteps int64     // this many scheduler steps without the simulated clock advancing => livelock
+	NoProgressYields int64  // this many yield points passed without any progress event (bytes moved, log events, task start/end, clock) => livelock
 	KeepLog   bool          // keep the textual event log (else only hashed)
 	Record    bool          // record the choice tape
 	Replay    *Tape         // replay from this tape instead of the seed
@@ -59,7 +61,8 @@ type Result struct {
 	SimTime     time.Duration
 	Tasks       int
 	Deadlock    bool
-	Livelock    bool // too many steps at one simulated instant
+	Livelock    bool // too many steps at one simulated instant, or too many yield points without progress
+	LivelockAt  string
 	StepCap     bool
 	SimCap      bool
 	Blocked     []string // tasks not done at end of run (before shutdown): "name @ site"
@@ -98,6 +101,7 @@ type Task struct {
 	sched   bool // pseudo task of the scheduler goroutine
 	gid     int64
 	daemon  bool
+	sinceParked int64
 }
 
 func (t *Task) Name() string { return t.name }
@@ -109,6 +113,7 @@ type Sim struct {
 	nTasks     int
 	sameInstant int64
 	lastNow    time.Time
+	progressAt int64 // value of yields at the last progress event
 	cur        *Task
 	last       *Task
 	schedTask  *Task
@@ -134,6 +139,8 @@ type Sim struct {
 }
 
 var active atomic.Pointer[Sim]
+
+var debugEnv = os.Getenv("SIMRT_DEBUG") != ""
 
 // Active reports whether a simulation is running in this process.
 func Active() bool { return active.Load() != nil }
@@ -169,6 +176,9 @@ func Run(t *testing.T, cfg Config, root func()) (res *Result) {
 	}
 	if cfg.SiteMask == 0 {
 		cfg.SiteMask = ^uint64(0)
+	}
+	if cfg.NoProgressYields == 0 {
+		cfg.NoProgressYields = 20_000_000
 	}
 	s := &Sim{cfg: cfg}
 	for i := range s.rng {
@@ -294,6 +304,7 @@ func (t *Task) where() string {
 func (s *Sim) newTask(name string) *Task {
 	t := &Task{id: s.nTasks, name: name, baton: make(chan struct{})}
 	s.nTasks++
+	s.progressAt = s.yields
 	t.state.Store(stParked)
 	if s.cfg.Policy == PolicyPCT {
 		// random initial priority above all change-point priorities
@@ -347,11 +358,13 @@ func (s *Sim) loop(main *Task) {
 			s.sameInstant++
 			if s.cfg.LivelockSteps > 0 && s.sameInstant > s.cfg.LivelockSteps {
 				s.res.Livelock = true
+				s.res.LivelockAt = fmt.Sprintf("%d scheduler steps at one simulated instant", s.sameInstant)
 				s.endReason = "livelock"
 				return
 			}
 		} else {
 			s.lastNow, s.sameInstant = now, 0
+			s.progressAt = s.yields
 		}
 		enabled = enabled[:0]
 		var quiescers []*Task
@@ -439,6 +452,9 @@ func (s *Sim) loop(main *Task) {
 			}
 		}
 		s.steps++
+		if debugEnv && s.steps%100000 == 0 {
+			fmt.Fprintf(os.Stderr, "simrt: step %d now=%v live=%d enabled=%d yields=%d parks=%d dump=%v\n", s.steps, now.Sub(s.start), len(s.tasks), len(enabled), s.yields, s.parks, s.TaskDump())
+		}
 		if s.steps > s.cfg.MaxSteps {
 			s.res.StepCap = true
 			s.endReason = "step-cap"
@@ -546,6 +562,7 @@ func (s *Sim) park(t *Task, cond func() bool, wakeAt time.Time, quiesce bool) {
 		panic("simrt: scheduler context cannot park (" + t.where() + ")")
 	}
 	s.parks++
+	t.sinceParked = 0
 	t.cond = cond
 	t.wakeAt = wakeAt
 	t.quiesce = quiesce
@@ -601,6 +618,22 @@ func (s *Sim) yield(site int32) {
 		return
 	}
 	s.yields++
+	t.sinceParked++
+	if s.yields-s.progressAt > s.cfg.NoProgressYields {
+		// a loop in the code under test that neither blocks nor achieves anything
+		s.res.Livelock = true
+		s.res.LivelockAt = fmt.Sprintf("task %s near %s", t.name, SiteName(site))
+		s.abort = true
+		s.shutdown.Store(true)
+		runtime.Goexit()
+	}
+	if t.sinceParked > 100_000 {
+		// never let one task monopolise the processor: the scheduler (and its caps) must get a turn
+		t.siteID = site
+		t.site = ""
+		s.park(t, nil, time.Time{}, false)
+		return
+	}
 	if s.cfg.SiteMask&siteBit(site) == 0 {
 		return
 	}
@@ -768,6 +801,13 @@ func WaitQuiescent(site string) {
 	s.park(t, nil, time.Time{}, true)
 }
 
+// Progress tells the scheduler that the system achieved something (bytes moved, an event logged).
+func Progress() {
+	if s := active.Load(); s != nil {
+		s.progressAt = s.yields
+	}
+}
+
 // NotifyAt asks the scheduler to re-evaluate parked conditions at simulated
 // instant at (used by simnet when data becomes readable in the future).
 func NotifyAt(at time.Time) {
@@ -886,6 +926,7 @@ func Logf(format string, args ...any) {
 	if s == nil {
 		return
 	}
+	s.progressAt = s.yields
 	line := fmt.Sprintf(format, args...)
 	h := fnv.New64a()
 	h.Write([]byte(line))
